@@ -54,6 +54,9 @@ input(std::istream &in) {
 
   int num_alt_names;
   in >> num_alt_names;
+  if (in.fail()) {
+    return;
+  }
   _alt_names.reserve(num_alt_names);
   for (int i = 0; i < num_alt_names; ++i) {
     std::string alt_name;
